@@ -1918,21 +1918,48 @@ func walkCoverage(cl *hmapClassifier, body ast.Node) string {
 			return true
 		}
 		start := cl.norm(init.Rhs[0])
-		// start forms: len(X), len(X)-1, oldCapacity (== len(table)), 0
+		// start forms: len(X)+c where X is the walked slice, possibly through locals (oldCapacity := len(table); oldCapacity-1)
 		var lenOf string
 		startOff := 0
-		switch {
-		case strings.HasPrefix(start, "len(") && strings.HasSuffix(start, ")-1"):
-			lenOf, startOff = start[4:len(start)-3], -1
-		case strings.HasPrefix(start, "len(") && strings.HasSuffix(start, ")"):
-			lenOf = start[4 : len(start)-1]
-		case start == "oldCapacity":
-			lenOf = "oldMap"
-		case start == "0":
+		if start == "0" {
 			return true // ascending loops: bound checked by the runtime; coverage `i < len` is the common idiom
-		default:
+		}
+		// resolve a local that aliases a slice (oldMap := this.table) to what it aliases
+		var fnBody *ast.BlockStmt
+		if b, ok := body.(*ast.BlockStmt); ok {
+			fnBody = b
+		}
+		baseOf := func(e ast.Expr) string {
+			for d := 0; d < 3; d++ {
+				id, ok := ast.Unparen(e).(*ast.Ident)
+				if !ok || fnBody == nil {
+					break
+				}
+				def := localDefIn(cl.info, fnBody, id)
+				if def == nil {
+					break
+				}
+				if _, isCall := ast.Unparen(def).(*ast.CallExpr); isCall {
+					break
+				}
+				e = def
+			}
+			return cl.norm(e)
+		}
+		lenKey := ""
+		f, ok := linearize(cl.info, fnBody, init.Rhs[0], func(x ast.Expr) (string, bool) {
+			if call, ok := ast.Unparen(x).(*ast.CallExpr); ok && len(call.Args) == 1 {
+				if id, ok := call.Fun.(*ast.Ident); ok && id.Name == "len" {
+					lenKey = baseOf(call.Args[0])
+					return "len", true
+				}
+			}
+			return "", false
+		})
+		if !ok || f["len"] != 1 || len(f.clean()) > 2 || lenKey == "" {
 			return true
 		}
+		lenOf, startOff = lenKey, int(f[""])
 		post, ok := loop.Post.(*ast.IncDecStmt)
 		if !ok || post.Tok != token.DEC {
 			return true
@@ -1956,8 +1983,8 @@ func walkCoverage(cl *hmapClassifier, body ast.Node) string {
 			if !ok {
 				return true
 			}
-			base := cl.norm(ix.X)
-			if lenOf != base && !(lenOf == "oldMap" && base == "oldMap") && !(lenOf == "tab" && base == "tab") && !(lenOf == "table" && base == "table") {
+			base := baseOf(ix.X)
+			if lenOf != base {
 				return true
 			}
 			is := cl.norm(ix.Index)
